@@ -117,7 +117,7 @@ def showRecord : Record → String
   | .allocFinished q a => s!"afin {q} {a}"
 
 def showSite : PanicSite → String
-  | .taskFinishedUnwrap | .taskFailedUnwrap | .jobCloseUnwrap | .jobCancelUnwrap => "unwrap-none"
+  | .taskFinishedUnwrap | .jobCloseUnwrap | .jobCancelUnwrap => "unwrap-none"
   | .taskFinishedState | .taskFailedState => "invalid-task-state"
   | .queueCreatedAssert => "assert-queue"
   | .validateRqAssert => "assert-rq"
